@@ -1,5 +1,7 @@
 import CijModel.Wire
 import CijModel.Static
+import CijModel.StaticExpr
+import CijModel.StaticDefaults
 import CijModel.VRH
 import CijModel.Ops.C05
 open Lean Cij Cij.Wire
@@ -7,7 +9,11 @@ open Lean Cij Cij.Wire
 /-! Wire ops of C18.  `Static.runWith` is executed at `Float` (numpy's own arithmetic); the least-squares fit is
     `LeastSq.polynomialLeastSquareFitting` over `Rat` on the exact values of the doubles, rounded once;
     `fill_cij` is `Fill.fill` over `Rat` (as for C08/C09); `numpy.linalg.inv` is `VRH.inv` (Gauss–Jordan, as for C07);
-    the spline of mode `none` is `Static.notAKnotSpline`. -/
+    the spline of mode `none` is `Static.notAKnotSpline`.
+    An option the harness leaves out (JSON null / absent) takes the default DECLARED IN THE SOURCE (`StaticSrc.defaultOptions`,
+    from the click declaration translated on this run).  With `"check_source": true` the op also interprets the translated
+    blocks of `main` (`StaticSrc.run … Generated.staticBlocks`) on the same input and reports whether the result is
+    bit-identical to `runWith` (`static_model_is_source` says it always is). -/
 namespace Cij.Ops.C18
 open Cij.Static Cij.LeastSq
 
@@ -56,16 +62,40 @@ def optFloat (j : Json) (k : String) : Except String (Option Float) :=
   | v => (floatOfJson v).map some
 
 def optionsOfJson (j : Json) : Except String (Options Float) := do
-  let interp ← match ← strOfJson (← field j "interp") with
-    | "none" => pure Interp.none
-    | "volume" => pure Interp.volume
-    | "pressure" => pure Interp.pressure
-    | s => throw s!"interp {s}"
-  pure { interp, ntv := ← natOfJson (← field j "ntv"),
-         pMin := ← floatOfJson (← field j "p_min"), deltaP := ← floatOfJson (← field j "delta_p"),
-         deltaPSample := ← optFloat j "delta_p_sample", cellmass := ← optFloat j "cellmass",
-         vRatio := ← floatOfJson (← field j "v_ratio"),
-         system := match fieldD j "system" Json.null with | .str s => some s | _ => none }
+  let d ← match StaticSrc.defaultOptions (α := Float) with
+    | some d => pure d
+    | none => throw "the click defaults of static.py are outside the model's grammar"
+  let interp ← match fieldD j "interp" Json.null with
+    | .null => pure d.interp
+    | v => match ← strOfJson v with
+      | "none" => pure Interp.none
+      | "volume" => pure Interp.volume
+      | "pressure" => pure Interp.pressure
+      | s => throw s!"interp {s}"
+  let orDefault (k : String) (dflt : Float) : Except String Float :=
+    match fieldD j k Json.null with
+    | .null => pure dflt
+    | v => floatOfJson v
+  let orDefaultOpt (k : String) (dflt : Option Float) : Except String (Option Float) :=
+    match fieldD j k Json.null with
+    | .null => pure dflt
+    | v => (floatOfJson v).map some
+  pure { interp,
+         ntv := ← (match fieldD j "ntv" Json.null with | .null => pure d.ntv | v => natOfJson v),
+         pMin := ← orDefault "p_min" d.pMin, deltaP := ← orDefault "delta_p" d.deltaP,
+         deltaPSample := ← orDefaultOpt "delta_p_sample" d.deltaPSample,
+         cellmass := ← orDefaultOpt "cellmass" d.cellmass,
+         vRatio := ← orDefault "v_ratio" d.vRatio,
+         system := match fieldD j "system" Json.null with | .str s => some s | _ => d.system }
+
+/-- bit-identical results (same row labels, same column names, same 64-bit patterns) -/
+def sameOut (a b : Option (Out Float)) : Bool :=
+  match a, b with
+  | none, none => true
+  | some x, some y =>
+    x.index == y.index && x.table.map (·.1) == y.table.map (·.1)
+      && x.table.map (fun c => c.2.map Float.toBits) == y.table.map (fun c => c.2.map Float.toBits)
+  | _, _ => false
 
 def unitsOfJson (j : Json) : Except String (Units Float) := do
   pure { toAng3 := ← floatOfJson (← field j "to_ang3"), toEv := ← floatOfJson (← field j "to_ev"),
@@ -116,11 +146,18 @@ def handle : Handler := fun op j =>
         match (input01Columns d1).bind fun ve => eos fitViaRat extFloat o.vRatio o.ntv ve.1 ve.2 with
         | some e => [("v_array", jFloats1 e.vArray), ("f_array", jFloats1 e.fArray), ("p_array", jFloats1 e.pArray)]
         | none => []
-      match runWith fitViaRat extFloat u o d1 d2 with
-      | none => pure (Json.mkObj ([("status", Json.str "error")] ++ eosJ))
+      let res := runWith fitViaRat extFloat u o d1 d2
+      let srcJ : List (String × Json) :=
+        match fieldD j "check_source" Json.null with
+        | .bool true =>
+          [("source_agrees", Json.bool (sameOut res
+              (StaticSrc.run ⟨fitViaRat, extFloat, u, o, d1, d2⟩ Generated.staticBlocks)))]
+        | _ => []
+      match res with
+      | none => pure (Json.mkObj ([("status", Json.str "error")] ++ eosJ ++ srcJ))
       | some out =>
         pure (Json.mkObj ([("status", Json.str "ok"), ("index", jInts (out.index.map Int.ofNat))]
-          ++ tableJson out.table ++ eosJ))
+          ++ tableJson out.table ++ eosJ ++ srcJ))
   | "c18.spline" => some do
       let x ← floats1 (← field j "x")
       let y ← floats1 (← field j "y")
